@@ -47,6 +47,12 @@ def ensure_repo_first() -> None:
 
 ensure_repo_first()
 
+# rdflib logs a traceback for every literal whose lexical form does not fit its datatype; silence it
+import logging  # noqa: E402
+
+logging.getLogger("rdflib").setLevel(logging.CRITICAL)
+logging.getLogger("rdflib.term").setLevel(logging.CRITICAL)
+
 
 def seed() -> int:
     try:
